@@ -121,6 +121,26 @@ def step (ps : Option PartSet.PartSet) (toks : List String) : Option PartSet.Par
         | .error .tooBig => "err-too-big"
         | .error _ => "err-proof")
     | _, _ => (ps, "bad-op")
+  | "hasheader" :: rest =>
+    match (kv rest "total").bind String.toNat?, (kv rest "root").bind ofHex with
+    | some t, some r => (ps, toString (hasHeader ps t r))
+    | _, _ => (ps, "bad-op")
+  | "hashesto" :: rest =>
+    match (kv rest "root").bind ofHex with
+    | some r => (ps, toString (hashesTo ps r))
+    | none => (ps, "bad-op")
+  | "read" :: rest =>
+    -- `GetReader()` on a complete set with at least one part, then `Read` with these buffer sizes
+    match ps, (kv rest "sizes").map (fun s => (splitComma s).map String.toNat?) with
+    | some s, some szs =>
+      if szs.any Option.isNone then (ps, "bad-op")
+      else if !(isComplete s) then (ps, "incomplete")
+      else if s.total = 0 then (ps, "no-parts")
+      else
+        let r := readerOf s
+        let chunks := rdSeq (szs.map (·.getD 0)) r.1 r.2
+        (ps, ",".intercalate (chunks.map fun c => hexOrDash c.1 ++ (if c.2 then "!" else "")))
+    | _, _ => (ps, "bad-op")
   | ["done"] =>
     match ps with
     | some s =>
